@@ -27,9 +27,9 @@ ASSUMPTIONS = [
     "object key columns hold mutually comparable values only; strings containing U+0000 are not generated",
     "strings starting with U+FFFF (the library's in-band sentinel for missing strings) form a tagged class",
 ]
-REACH = {"quick": {"nrow:0": 50, "key:lstr": 100, "key:ustr": 100, "key:str": 300, "multi-key-mixed-dir": 200, "key-all-missing": 50, "desc-nonnumeric": 300, "tag:big": 10, "after-inplace-edit": 500}}
+REACH = {"quick": {"nrow:0": 50, "key:lstr": 100, "key:ustr": 100, "key:str": 300, "multi-key-mixed-dir": 200, "key-all-missing": 50, "desc-nonnumeric": 300, "tag:big": 10, "after-inplace-edit": 500, "grouped-receiver": 300, "key:oint": 100}}
 
-KEY_KINDS = ["bool", "int", "float", "str", "str", "lstr", "ustr", "date", "datetime", "obool", "ostr", "timedelta"]
+KEY_KINDS = ["bool", "int", "float", "str", "str", "lstr", "ustr", "date", "datetime", "obool", "ostr", "timedelta", "oint"]
 
 def _big_case(rng):
     """Size-dependent paths: > 10000 rows, the longest / distinguishing strings only in the tail."""
@@ -73,6 +73,9 @@ def generate(rng, tier):
         spec = [spec[0]] + order
     rng.shuffle(keys)
     case = {"spec": spec, "keys": keys, "tags": sorted(tags)}
+    if rng.random() < 0.15:
+        gc = [s_[0] for s_ in spec if s_[1] in ("int", "str", "bool", "float", "date") and s_[0] != "_rid_"]
+        if gc: case["grouped"] = rng.choice(gc)
     if nrow and rng.random() < 0.25:
         col = keys[0][0]
         kind = [s_[1] for s_ in spec if s_[0] == col][0]
@@ -126,6 +129,15 @@ def _execute(case, edit):
             pass
         arr = np.asarray(dict.__getitem__(df, col))
         arr[pos % len(arr)] = gen.np_column(kind_of[col], [newv])[0]
+    if case.get("grouped"):
+        # the frame was grouped (and aggregated) earlier: group_by marks the receiver, sort must not care
+        try:
+            g = case["grouped"]
+            df.group_by(g)
+            df.aggregate(n=di.count())
+        except Exception:
+            pass
+        res.cls("grouped-receiver")
     pre = canon.frame_cells(df)
     names = list(pre)
     for k, _ in keys:
